@@ -357,7 +357,7 @@ def run(ctx):
     ok = False
     missing = GEOM
     if isinstance(rt, tuple) and rt[0] == 'call' and cname(rt[1]).endswith('::from_parts'):
-        tr = rt[2]
+        tr = util.inline_calls(ctx.prog, rt[2], depth=2)          # a part of the closed form kept in a helper (`self.wrist_center(q1, q2, q3)`) is written out
         ps = {x[2] for x in mir.subterms(tr, lambda x: x[0] == 'fld' and x[2] in GEOM)}
         missing = sorted(set(GEOM) - ps)
         ok = not missing
